@@ -73,7 +73,7 @@ class StringChecker(Checker):
             # We are not meant to handle non-string values if they accidentally got here
             if type(item) != str:
                 continue
-            if policy.start_tag == item[0] and policy.end_tag == item[-1]:
+            if item and policy.start_tag == item[0] and policy.end_tag == item[-1]:
                 item = item[1:-1]
             if self.compare(what, item):
                 return True
